@@ -282,9 +282,9 @@ func c15Gen(tier string, rng *rand.Rand) []c15Case {
 	for i := 0; i < n; i++ {
 		out = append(out, c15GenOne(rng))
 	}
-	m := 10
+	m := 24
 	if tier == "thorough" {
-		m = 120
+		m = 300
 	}
 	for i := 0; i < m; i++ {
 		out = append(out, c15E2EGenOne(rng, i))
